@@ -99,6 +99,24 @@ def corpus():
           {"kind": "insert-select", "table": "t", "cols": ["a", "c"], "from": ["u", "k"], "sels": [_f("x"), _f("c")], "where": ["basic", "lt", _f("x"), i(3), None], "mode": "insert"}),
         B(["update", "t"], [["set", ["s", "a"], ["t", ["sub", None]]], ["set", ["s", "b"], ["i", 1]], ["where", ["basic", "gt", _f("id"), i(1), None]]],
           {"kind": "update", "table": "t", "sets": [["a", ["t", ["sub", None]]], ["b", ["i", 1]]], "where": ["basic", "gt", _f("id"), i(1), None]}),
+        # strings ending in a backslash (SQLite has no backslash escapes), braces, percent: as INSERT value, SET value, WHERE operand
+        B(["into", "t"], [["columns", [["s", "b"], ["s", "c"]]], ["insert", [["seq", "tuple", [["s", "C:\\data\\"], ["s", "\\"]]], ["seq", "tuple", [["s", "{x}"], ["s", "100%"]]]]]],
+          {"kind": "insert", "table": "t", "cols": ["b", "c"], "rows": [[["s", "C:\\data\\"], ["s", "\\"]], [["s", "{x}"], ["s", "100%"]]], "mode": "insert"}),
+        B(["update", "t"], [["set", ["s", "b"], ["s", "\\"]], ["set", ["s", "a"], ["s", "it's\\"]], ["where", ["basic", "eq", _f("c"), ["vals", "C:\\data\\", None], None]]],
+          {"kind": "update", "table": "t", "sets": [["b", ["s", "\\"]], ["a", ["s", "it's\\"]]], "where": ["basic", "eq", _f("c"), ["vals", "C:\\data\\", None], None]}, db=0),
+        B(["delete", "t"], [["where", ["basic", "ne", _f("c"), ["vals", "\\", None], None]]],
+          {"kind": "delete", "table": "t", "where": ["basic", "ne", _f("c"), ["vals", "\\", None], None]}, db=0),
+        # membership in an EMPTY list, built by Term.isin([]) / Term.notin([]): nothing / everything qualifies
+        B(["delete", "t"], [["where", ["in", _f("a"), ["tuple", [], None], True, None]]],
+          {"kind": "delete", "table": "t", "where": ["in", _f("a"), ["tuple", [], None], True, None]}),
+        B(["update", "t"], [["set", ["s", "b"], ["i", 77]], ["where", ["in", _f("a"), ["tuple", [], None], True, None]], ["where", ["basic", "gt", _f("id"), i(2), None]]],
+          {"kind": "update", "table": "t", "sets": [["b", ["i", 77]]],
+           "where": ["cplx", "and", ["in", _f("a"), ["tuple", [], None], True, None], ["basic", "gt", _f("id"), i(2), None], None]}),
+        B(["update", "t"], [["set", ["s", "b"], ["i", 78]], ["where", ["cplx", "or", ["in", _f("a"), ["tuple", [], None], False, None], ["basic", "eq", _f("id"), i(2), None], None]]],
+          {"kind": "update", "table": "t", "sets": [["b", ["i", 78]]],
+           "where": ["cplx", "or", ["in", _f("a"), ["tuple", [], None], False, None], ["basic", "eq", _f("id"), i(2), None], None]}),
+        B(["delete", "t"], [["where", ["not", ["in", _f("a"), ["tuple", [], None], False, None], None]]],
+          {"kind": "delete", "table": "t", "where": ["not", ["in", _f("a"), ["tuple", [], None], False, None], None]}, cls="Query"),
         B(["update", "t"], [["set", ["s", "a"], ["b", True]], ["set", ["s", "b"], ["b", False]]],
           {"kind": "update", "table": "t", "sets": [["a", ["b", True]], ["b", ["b", False]]], "where": None}),
         B(["into", "t"], [["columns", [["s", "a"], ["s", "b"]]], ["insert", [["v", ["b", True]], ["v", ["b", False]]]]],
